@@ -1686,7 +1686,8 @@ class ContractionTree:
                     tree.info[node].pop(k, None)
 
         tree.already_optimized.clear()
-        tree.contraction_cores.clear()
+        # n.b. also resets nodes that only depend on ``ind`` via their children
+        tree.reset_contraction_indices()
 
         return tree
 
@@ -1733,7 +1734,7 @@ class ContractionTree:
 
         # reset caches
         tree.already_optimized.clear()
-        tree.contraction_cores.clear()
+        tree.reset_contraction_indices()
 
         return tree
 
@@ -1953,8 +1954,9 @@ class ContractionTree:
             if progbar:
                 pbar.close()
 
-        # invalidate any compiled contractions
-        tree.contraction_cores.clear()
+        # invalidate any compiled contractions, and any explicit contraction
+        # index ordering, which is stale for parents of reconfigured nodes
+        tree.reset_contraction_indices()
 
         return tree
 
